@@ -634,6 +634,13 @@ class MQTTProtocol(MQTTBaseProtocol):
             del self.factory.windowPubRelease[self.addr][k]
             request.deferred.errback(reason)
 
+        # messages still held back in the queue belong to the session too
+        queue = self.factory.queuePublishTx[self.addr]
+        for request in list(queue):
+            queue.remove(request)
+            if request.msgId:   # QoS 0 deferreds have already fired
+                request.deferred.errback(reason)
+
 
     # -------------------------------------
     # Helper methods (publisher/subscriber)
